@@ -430,7 +430,7 @@ func c04Scenarios(tier string) []engine.Scenario {
 func init() {
 	engine.Register(&engine.Property{
 		ID: "C04", Level: "model_checking",
-		Rule:        "E1 with a reference automaton (count, last attempt, locked-until) advanced on the same history and compared with storage and with a probe login after every step; clock alphabet {1s, W-1s, W+1s, D-1s, D+1s}; accounts with OTPs, with TOTP, and with TOTP replay protection; small-duration configurations run to a fixpoint (all histories of any length); classes = attempt classes and lock transitions hit",
+		Rule: "E1 with a reference automaton (count, last attempt, locked-until) advanced on the same history and compared with storage and with a probe login after every step; clock alphabet {1s, W-1s, W+1s, D-1s, D+1s}; accounts with OTPs, with TOTP, and with TOTP replay protection; small-duration configurations run to a fixpoint (all histories of any length); classes = attempt classes and lock transitions hit",
 		Units: func(tier string) []engine.Unit {
 			scs := c04Scenarios(tier)
 			return e1Units(append(scs, configVariants(scs[:2], tier, "err500", "json")...))
